@@ -57,6 +57,15 @@ Proof. exact refresh_due. Qed.
 Theorem C14_requests_leave_main_table : forall m now who v, mt_rt (mt_request m now who v false) = mt_rt m.
 Proof. exact request_leaves_main_table. Qed.
 
+(* the refresh's lookup is seeded with what the tables held when the iteration began - also with the entries that the
+   round of the same iteration drops as stale (a node that was not scheduled for more than 15 minutes asks its peers
+   again before it forgets them) *)
+Theorem C14_refresh_asks_what_it_knew : forall m now n,
+  refresh_is_due m now = true -> In n (rt_values (mt_rt m)) -> is_stale now n = true ->
+  In (nip n, nport n) (refresh_seeds m now) /\ o_populate (snd (mt_maintain m now)) = true.
+Proof. exact refresh_asks_stale_entries_too. Qed.
+
+Print Assumptions C14_refresh_asks_what_it_knew.
 Print Assumptions C14_requests_leave_main_table.
 Print Assumptions C14_table_invariant_kept.
 Print Assumptions C14_fresh_peer_stays.
